@@ -305,7 +305,9 @@ def s5_trigger_threshold_roles(ctx):
                     continue
                 o = b.origin_rvalue(st["rv"])
                 sides = [o[2], o[3]]
-                conf = [(i, access_path(s)) for i, s in enumerate(sides) if (access_path(s) or "").find("conf.merge.t") >= 0]
+                # (inside a closure the limits may come in as a captured `thresholds`: resolve the capture)
+                rap = lambda s_: resolved_access_path(prog, b, s_) or access_path(s_)
+                conf = [(i, rap(s)) for i, s in enumerate(sides) if (rap(s) or "").find("conf.merge.t") >= 0]
                 if not conf:
                     continue
                 ci, cp = conf[0]
@@ -738,25 +740,31 @@ def s11_empty_number_guard(ctx):
 
     init_local = root_local(init)
     found = False
+    cands_ = []
     for bb in sorted(b.live_blocks()):
         info = b.switch_info(bb)
         if not info or info["kind"] != "bool":
             continue
         o = peel_var(info["on"])
-        if o[0] == "bin" and o[1] == "Eq":
+        if o[0] == "bin" and o[1] in ("Eq", "Ne"):
+            eq_arm = o[1] == "Eq"  # the edge on which cursor == x
             sides = [o[2], o[3]]
             vs = [s_ for s_ in sides if s_[0] == "var" and s_[1] == idx]
             others = [s_ for s_ in sides if not (s_[0] == "var" and s_[1] == idx)]
             if vs and others:
                 # does the true edge lead to an Err(NotInteger) return?
                 for e in b.succ[bb]:
-                    if info["arms"].get(e.dst) == [True]:
+                    if info["arms"].get(e.dst) == [eq_arm]:
                         rs = ret_classes(b, e.dst, lambda x: x.kind == "unwind")
                         if rs and all(c == "err" for c, d, rb in rs):
                             found = True
                             ot = others[0]
-                            good = init_local is not None and root_local(ot) == init_local
-                            r.add(f, "'no digits' test compares the cursor with its starting value", good, where(b, bb), "" if good else "compares with %s but the digit loops start at %s: a bare sign would be accepted as 0" % (origin_str(ot), origin_str(init)))
+                            cands_.append((init_local is not None and root_local(ot) == init_local, bb, ot))
+    if cands_:
+        # several `cursor == x ⇒ Err` tests may exist (`== end` ⇒ Incomplete): one of them must be the start
+        good = any(g for g, bb, ot in cands_)
+        g0 = [c for c in cands_ if c[0]] or cands_
+        r.add(f, "'no digits' test compares the cursor with its starting value", good, where(b, g0[0][1]), "" if good else "compares with %s but the digit loops start at %s: a bare sign would be accepted as 0" % (origin_str(g0[0][2]), origin_str(init)))
     if not found:
         r.bad(f, "'no digits' test", short_span(b.span), "no test `cursor == start` guarding an error return: an empty digit string is accepted")
     return r
